@@ -458,10 +458,11 @@ impl Pow<Self> for LazyBigint {
                     Self::Short,
                 )
             }
+            // 0, 1 and -1 raised to a long power, and a long raised to zero, are short
             (Self::Short(s), Self::Long(b)) => {
-                Self::Long(BigInt::from(s).pow(BigUint::try_from(b).unwrap()))
+                Self::from(BigInt::from(s).pow(BigUint::try_from(b).unwrap()))
             }
-            (Self::Long(b), Self::Short(s)) => Self::Long(b.pow(BigUint::try_from(s).unwrap())),
+            (Self::Long(b), Self::Short(s)) => Self::from(b.pow(BigUint::try_from(s).unwrap())),
             (Self::Long(b0), Self::Long(b1)) => Self::Long(b0.pow(BigUint::try_from(b1).unwrap())),
         }
     }
